@@ -1,5 +1,6 @@
 import TrucModel.Proofs.Corollaries
 import TrucModel.Props.Examples
+import TrucModel.Proofs.GenProps
 /-
   C03 — A datum never moves; all variants of a record have one size and alignment.
   First half (builder): once a variant is closed, the whole description (offset, size, alignment,
@@ -18,6 +19,17 @@ theorem C03_offset_stable (pre suf : List Req) (hv : ∀ r ∈ pre ++ suf, r.val
   rw [hrun]
   intro v hvm
   exact ⟨hst.1 v hvm, hst.2 v hvm⟩
+
+/-- second half: all record types generated for one definition have the same size and alignment, for
+    `CAP = MAX_SIZE` and any larger `CAP`: every variant's record struct is `#[repr(align(A))]` with the
+    *same* `A` (`C02_published`) around the same single field of `CAP` bytes, hence the same layout
+    `(roundUp CAP A, A)` — rustc's `repr(align)` rule is the modelled part (validated by channel X `sizes`). -/
+theorem C03_same_layout (d : Definition) (cap : Nat) (s₁ s₂ : Gen.Spec) (h₁ : s₁ ∈ Gen.specs d) (h₂ : s₂ ∈ Gen.specs d) :
+    Gen.recLayout cap s₁.align = Gen.recLayout cap s₂.align ∧ Gen.fragRecord s₁ = Gen.fragRecord { s₂ with vid := s₁.vid } := by
+  have a₁ := Gen.specs_align d s₁ h₁
+  have a₂ := Gen.specs_align d s₂ h₂
+  refine ⟨by rw [a₁, a₂], ?_⟩
+  simp [Gen.fragRecord, a₁, a₂]
 
 /-- non-vacuity: the first variant of the example history survives two more closes unchanged -/
 example : (run (Ex.h1.take 4)).variants = [[0, 2, 1]] ∧ [0, 2, 1] ∈ (run Ex.h1).variants := by
